@@ -656,8 +656,9 @@ class AbstractFormat:
             return False
         if other.neg_bound > self.neg_bound:
             return False
-        # 3. precision — only constraining when other has a finite normal region
-        if not isinstance(other.prec, float) and not isinstance(other.exp, float):
+        # 3. precision — constraining whenever other's is finite, whether or not
+        # its exponent is bounded below (`MPFloatContext(2)` holds no 1.75)
+        if not isinstance(other.prec, float):
             if self.prec > other.prec:
                 # easy check failed: other's spacing in its normal region widens faster.
                 # Containment still holds if self's bound stays within the region where
